@@ -201,11 +201,11 @@ def produced_kinds(an, prog):
                     # value built by a crate helper called from this arm (one level)
                     for cb2, tt, c in b.calls():
                         if c is not None and c.local and b.edge_dominates((blk, tb), cb2):
-                            hb = prog.body(c.path)
-                            if hb is not None:
-                                for (bb, i, s) in block_aggs(hb):
-                                    if s["rv"]["adt"].endswith("::FieldValue"):
-                                        kinds.add(s["rv"]["variant"])
+                            for hp, hb in prog.bodies.items():
+                                if hp == c.path or hp.startswith(c.path + "::{closure"):
+                                    for (bb, i, s) in block_aggs(hb):
+                                        if s["rv"]["adt"].endswith("::FieldValue"):
+                                            kinds.add(s["rv"]["variant"])
                 out[name[0]] = kinds
             break
     # DataNumber::parse width table: (len, signed) -> variant
